@@ -333,7 +333,11 @@ func init() {
 					impl, verdict = "invalid", "FAIL emitted-schema-does-not-compile case="+id+" "+shortErr(evErr)
 				} else if verr := ev.validate(doc); verr != nil {
 					impl = "invalid"
-					verdict = fmt.Sprintf("FAIL encoded-value-rejected format=ir src=%s %s case=%s", p.id, c12Explain(verr, emitted, doc), id)
+					by := c12ExplainedBy(s, emitted, p.root, doc)
+					if by == "" {
+						by = "nothing"
+					}
+					verdict = fmt.Sprintf("FAIL encoded-value-rejected explained-by=%s format=ir src=%s %s case=%s", by, p.id, c12Explain(verr, emitted, doc), id)
 				}
 				fmt.Fprintf(out, "jsvalid %s %s %s %s\t%s\t%s\t%s\n", id, p.pkg, p.root, doc.sexp(), impl, verdict, doc.json())
 			}
@@ -345,6 +349,7 @@ func init() {
 	register("c12-hang", func(args map[string]string, out *bufio.Writer) error {
 		p := c12HangSet()
 		s := c12FindSchema(p.schemas, p.pkg)
+		fmt.Fprintf(out, "defschemas pin-%s %s\tok\tok\n", p.id, virSchemas(p.schemas))
 		done := make(chan string, 1)
 		go func() {
 			text, err := c12EmitJSONSchema(p.schemas, s)
